@@ -59,6 +59,7 @@ Fixpoint assoc_str (l : list (string * string)) (k : string) : option string :=
   | (k', v) :: r => if String.eqb k' k then Some v else assoc_str r k
   end.
 Definition str_in (l : list string) (k : string) : bool := existsb (String.eqb k) l.
+Definition z_in (l : list Z) (k : Z) : bool := existsb (Z.eqb k) l.
 
 Definition slen (s : string) : Z := Z.of_nat (String.length s).
 
